@@ -35,7 +35,13 @@ PARTIAL = [
     "Not proved (and not true of A9.7): a least-squares statement for the surface as a whole; the evaluated-curve form of "
     "the per-line minimisation (through basisFunOne = Cox-de Boor, as done for approximate_curve) is not restated for the passes",
     "approximate_curve / approximate_surface raise IndexError for 2 control points in a direction (ctrlpts_size = 2, degree 1: "
-    "matrix_multiply on the empty transposed matrix); the driver answers ERR there, the generators ask for >= 3 control points",
+    "matrix_multiply on the empty transposed matrix; finding F-11a); the driver answers ERR there, the generators ask for >= 3 control points, "
+    "and every theorem about a fitting routine carries the guard of its driver op as hypothesis (InterpCurveOk / InterpSurfOk / "
+    "ApproxCurveOk / ApproxSurfOk: degree >= 1, enough points, >= 3 control points per direction, su*sv data points, one chord "
+    "list per data line with NON-ZERO total chord length) - on inputs outside the guard (where the code raises) nothing is claimed",
+    "a data line whose points all coincide (total chord length 0): compute_params_curve raises ZeroDivisionError; driver guard "
+    "zeroChord (ops fit.params / icurve / isurf / acurve / asurf), generator stream 'zero-chord' compared as ERR on both sides and "
+    "not judged by the oracle (the property text requires distinct consecutive points)",
 ]
 ASSUMPTIONS = ["int(j * d) in compute_knot_vector2 is evaluated exactly here; in floating point j*d may round across an integer"]
 
@@ -133,6 +139,47 @@ def gen(rng, tier):
         pts = _data(rng, npts, dim); cen = rng.random() < .5
         cds = _cds(pts, cen)
         out.append(Case('acurve', "fit.acurve 1 %s %s 2" % (show_pts(pts), show_list(cds)), dict(p=1, pts=pts, cen=cen, nc=2), tags=('two-ctrlpts',)))
+    # a data line whose points all coincide (total chord length 0): the property text requires distinct consecutive
+    # points; compute_params_curve divides by the total chord length -> ZeroDivisionError, driver guard `zeroChord`.
+    # These cases are compared as ERR on both sides and are NOT judged by the oracle.
+    for _ in range(6 if tier == 'quick' else 40):
+        cen = rng.random() < .5
+        kind = rng.choice(['icurve', 'acurve', 'isurf', 'asurf'])
+        if kind in ('icurve', 'acurve'):
+            dim = rng.choice([2, 3]); npts = rng.randint(4, 7)
+            pt = [F(rng.randint(-20, 20), rng.choice([1, 2, 4])) for _ in range(dim)]
+            pts = [list(pt) for _ in range(npts)]
+            cds = _cds(pts, cen)
+            p = rng.randint(1, 2)
+            if kind == 'icurve':
+                out.append(Case('icurve', "fit.icurve %d %s %s %s" % (p, show_pts(pts), show_list(cds), fr(F(1.0 / p))),
+                                dict(p=p, pts=pts, cen=cen), tags=('zero-chord',)))
+            else:
+                out.append(Case('acurve', "fit.acurve %d %s %s %d" % (p, show_pts(pts), show_list(cds), 3),
+                                dict(p=p, pts=pts, cen=cen, nc=3), tags=('zero-chord',)))
+        else:
+            su, sv = rng.randint(4, 6), rng.randint(4, 6)
+            if su == sv:
+                sv += 1
+            pu, pv = rng.randint(1, 2), rng.randint(1, 2)
+            pts = [[F(u) + F(rng.randint(-2, 2), 8), F(v) + F(rng.randint(-2, 2), 8), F(rng.randint(-12, 12), 4)] for u in range(su) for v in range(sv)]
+            if rng.random() < .5:      # collapse one data column (fixed v, all u)
+                v0 = rng.randrange(sv)
+                for u in range(su):
+                    pts[v0 + sv * u] = list(pts[v0])
+            else:                      # collapse one data row (fixed u, all v)
+                u0 = rng.randrange(su)
+                for v in range(sv):
+                    pts[v + sv * u0] = list(pts[sv * u0])
+            cu = [_cds([pts[v + sv * u] for u in range(su)], cen) for v in range(sv)]
+            cv = [_cds([pts[v + sv * u] for v in range(sv)], cen) for u in range(su)]
+            if kind == 'isurf':
+                line = "fit.isurf %d %d %d %d %s %s %s %s %s" % (pu, pv, su, sv, show_pts(pts), show_pts(cu), show_pts(cv), fr(F(1.0 / pu)), fr(F(1.0 / pv)))
+                out.append(Case('isurf', line, dict(pu=pu, pv=pv, su=su, sv=sv, pts=pts, cen=cen), tags=('zero-chord',)))
+            else:
+                ncu, ncv = su - 1, sv - 1
+                line = "fit.asurf %d %d %d %d %s %s %s %d %d" % (pu, pv, su, sv, show_pts(pts), show_pts(cu), show_pts(cv), ncu, ncv)
+                out.append(Case('asurf', line, dict(pu=pu, pv=pv, su=su, sv=sv, pts=pts, cen=cen, ncu=ncu, ncv=ncv, dflt=True), tags=('zero-chord',)))
     return out
 
 
@@ -161,6 +208,9 @@ def impl(c):
 def oracle(c):
     from geomdl import fitting, helpers
     d = c.data
+    if 'zero-chord' in c.tags:
+        # outside the property (it requires distinct consecutive data points): both sides answer ERR, nothing to judge
+        return None
     try:
         o = _fit(c)
     except Exception as e:
